@@ -2,6 +2,7 @@ import Operon.Lemmas.C18
 import Operon.Lemmas.C18Hist
 import Operon.Lemmas.C18Live
 import Operon.Lemmas.C18Early
+import Operon.Lemmas.C18Decay
 /-!
 # C18 — healing and tool loops stop within their budgets against any generator
 
@@ -459,19 +460,47 @@ limit *in force when the call is made*. -/
 section Histories
 variable {σ κ C W ω η ι τ ρ θ : Type}
 
-/-- Every `heal` of a history is the single call of the theorems above, run with the limits in force when it is
-    entered — so it makes at most `max_retries + 1` generator calls for the value `max_retries` has *then*,
-    whatever it was at construction or during earlier calls.  (All single-call theorems apply to `run`.) -/
+/-- `heal` with the decay read at every attempt (`healL`) makes, for ANY callbacks — also ones that assign
+    `confidence_decay` while it runs —, exactly the adversary calls of the entry-snapshot `heal` and returns the
+    same result up to confidence numbers (`HealRun.skel`: final state, calls with the contexts shown, outcome,
+    tag, attempt records, the validator's answer carried, and confidence 0 of a degraded result).  Every
+    theorem of the first section therefore holds of it: in particular at most `max_retries + 1` generator calls. -/
+theorem c18_heal_live_decay_only_changes_confidences (ops : ConfOps C) (curOf : σ → Nat → C) (cfg : HealCfg)
+    (adv : HealAdv σ κ C) (s : σ) (prompt : String) :
+    (healL ops curOf cfg adv s prompt).skel = (heal ops cfg adv s prompt).skel ∧
+    (healL ops curOf cfg adv s prompt).calls.length ≤ (cfg.maxRetries + 1).toNat := by
+  have h := healLoopL_skel ops curOf adv prompt (cfg.maxRetries + 1).toNat 0 none [] [] s rfl
+  refine ⟨h, ?_⟩
+  have hc : (healL ops curOf cfg adv s prompt).calls = (heal ops cfg adv s prompt).calls := by
+    have := congrArg (fun x => x.2.1) h
+    exact this
+  rw [hc]
+  exact (c18_heal_calls_le_retries_succ ops cfg adv s prompt).1
+
+/-- …and it is the entry-snapshot `heal` itself when the callbacks leave the decay alone. -/
+theorem c18_heal_live_decay_exact_when_untouched (ops : ConfOps C) (curOf : σ → Nat → C) (cfg : HealCfg)
+    (adv : HealAdv σ κ C) (Inv : σ → Prop)
+    (hg : ∀ s q c, Inv s → Inv (adv.gen s q c).1) (hf : ∀ s raw, Inv s → Inv (adv.fold s raw).1)
+    (hcur : ∀ s, Inv s → curOf s = ops.cur) (s : σ) (hI : Inv s) (prompt : String) :
+    healL ops curOf cfg adv s prompt = heal ops cfg adv s prompt :=
+  healLoopL_eq ops curOf adv prompt Inv hg hf hcur _ _ _ _ s hI
+
+/-- Every `heal` of a history is the single call `healL`, run with the limit in force when it is entered — so it
+    makes at most `max_retries + 1` generator calls for the value `max_retries` has *then*, whatever it was at
+    construction or during earlier calls, and whatever the callbacks assign while it runs (`max_retries` is read
+    once; the decay only moves confidences).  Through `c18_heal_live_decay_only_changes_confidences` all
+    single-call theorems apply to `run`. -/
 theorem c18_heal_history_limit_in_force (o : HealObj σ κ C) (s0 : σ) (ops : List (ObjOp σ String)) (i : Nat)
     (u : Unit) (s : σ) (run : HealRun σ κ C) (h : (runObj o.call () s0 ops)[i]? = some (u, s, some run)) :
     ∃ prompt, ops[i]? = some (.call prompt) ∧
       ((), s) = endObj o.call () s0 (ops.take i) ∧
-      run = heal (o.opsOf s) ⟨o.retriesOf s⟩ o.adv s prompt ∧
+      run = healL o.ops o.curOf ⟨o.retriesOf s⟩ o.adv s prompt ∧
+      run.skel = (heal o.ops ⟨o.retriesOf s⟩ o.adv s prompt).skel ∧
       run.calls.length ≤ (o.retriesOf s + 1).toNat := by
   obtain ⟨prompt, h1, h2, h3⟩ := runObj_call o.call ops () s0 i u s run h
-  refine ⟨prompt, h1, h2, h3, ?_⟩
-  rw [h3]
-  exact (c18_heal_calls_le_retries_succ (o.opsOf s) ⟨o.retriesOf s⟩ o.adv s prompt).1
+  refine ⟨prompt, h1, h2, h3, ?_, ?_⟩
+  · rw [h3]; exact (c18_heal_live_decay_only_changes_confidences o.ops o.curOf ⟨o.retriesOf s⟩ o.adv s prompt).1
+  · rw [h3]; exact (c18_heal_live_decay_only_changes_confidences o.ops o.curOf ⟨o.retriesOf s⟩ o.adv s prompt).2
 
 /-- The limit in force is the one assigned last: after `loop.max_retries = n` (an assignment `f` that sets the
     limit to `n`), any number of further calls and of assignments to *other* attributes, with callbacks that do
@@ -515,13 +544,16 @@ theorem c18_heal_history_last_assignment (o : HealObj σ κ C)
       simp only [objStep]
       rw [hmid _ ho g rfl s]; exact hs
     | call a =>
-      simp only [objStep, HealObj.call, heal]
+      simp only [objStep, HealObj.call]
+      have hst : (healL o.ops o.curOf ⟨o.retriesOf s⟩ o.adv s a).st = (heal o.ops ⟨o.retriesOf s⟩ o.adv s a).st :=
+        congrArg (fun x => x.1) (c18_heal_live_decay_only_changes_confidences o.ops o.curOf ⟨o.retriesOf s⟩ o.adv s a).1
+      rw [hst]
       exact healLoop_st_inv _ o.adv a (fun s => o.retriesOf s = n)
         (fun s q c h => by rw [(hq s).1 q c]; exact h) (fun s raw h => by rw [(hq s).2 raw]; exact h) _ _ _ _ _ hs
   subst hop
   generalize endObj o.call (endObj o.call () s0 pre).1 (endObj o.call () s0 pre).2 (ObjOp.assign f :: mid) = st at h2 hn
   refine ⟨(o.call st.1 st.2 prompt).2.2, by rw [h2]; rfl, ?_⟩
-  have hb := (c18_heal_calls_le_retries_succ (o.opsOf st.2) ⟨o.retriesOf st.2⟩ o.adv st.2 prompt).1
+  have hb := (c18_heal_live_decay_only_changes_confidences o.ops o.curOf ⟨o.retriesOf st.2⟩ o.adv st.2 prompt).2
   refine Nat.le_trans hb ?_
   show (o.retriesOf st.2 + 1).toNat ≤ (n + 1).toNat
   rw [hn]
@@ -632,7 +664,8 @@ example : (heal natOps ⟨-1⟩ advNever 0 "p").calls.length = 0 := by decide
 
 /-- a live loop whose environment state is (call counter, max_retries): never valid -/
 private def liveNever : HealObj (Nat × Int) Unit Nat :=
-  ⟨⟨fun s _ _ => ((s.1 + 1, s.2), .ok "bad"), fun s _ => (s, .ok ⟨false, 0, some "boom", ()⟩)⟩, fun s => s.2, fun _ => natOps⟩
+  ⟨⟨fun s _ _ => ((s.1 + 1, s.2), .ok "bad"), fun s _ => (s, .ok ⟨false, 0, some "boom", ()⟩)⟩, fun s => s.2, natOps,
+   fun _ => natOps.cur⟩
 
 /-- built with max_retries 4, the attribute lowered to 1, then `heal` with a generator that stays invalid: 2
     generator calls, not 5 (the history of seeded change p1; hypotheses of `c18_heal_history_last_assignment`
